@@ -123,8 +123,7 @@ class Objective:
             for output_index in range(0, nb_sub_objectives):
                 outputs = model_outputs[output_index]
                 loss += self.funcs[output_index](
-                    outputs, tf.cast(masks[output_index], outputs.dtype))
-                loss *= multipliers[output_index]
+                    outputs, tf.cast(masks[output_index], outputs.dtype)) * multipliers[output_index]
             return loss
 
         # the model outputs will be composed of the layers needed
